@@ -10,7 +10,7 @@
    the send loop as repaired for finding F10. *)
 From Coq Require Import String List ZArith Bool Arith Permutation Sorted.
 From TM Require Import C19.Query C19.Model C19.Proofs C19.SearchModel C19.SearchProofs.
-From TM Require Import C19.BlockModel C19.BlockProofs.
+From TM Require Import C19.BlockModel C19.BlockProofs C19.SearchRangeProofs.
 Import ListNotations.
 Local Open Scope nat_scope.
 
@@ -130,6 +130,43 @@ Print Assumptions C19_search_exact_partial.
    C19_search_slash_refuted, C19_search_numeric_refuted, C19_search_hash_shortcut_refuted,
    C19_search_merged_ranges_refuted, C19_search_merged_ranges_multivalued_refuted,
    C19_search_time_refuted, C19_search_exists_undotted_refuted. *)
+
+(* 6b. Theorem 6 extended to integer RANGE conditions: for every history of distinct
+   transactions in the value domain and every query outside the decidable known classes
+   (17 '/' and numeric strictness, 24 tx.hash, 25 merged ranges, 26 TIME/DATE, 27 undotted
+   EXISTS) — a non-empty conjunction in any order and number of = 'string', = integer, CONTAINS,
+   dotted EXISTS and < <= > >= integer, tx.height conditions of the integer kinds included, the
+   range conditions on one key being one condition or one lower and one upper bound on a key
+   that is single-valued in every transaction (TxRangeShape) — Search returns exactly the
+   indexed transactions whose event map satisfies the pub/sub matcher: LookForRanges
+   (characterised for arbitrary queries), matchRange, both loops with the first-run / empty-set
+   short-cuts, the tx.height = H narrowing of the "=" scans (range scans are not narrowed), the
+   final Get.  PARTIAL as theorem 6: "canonical decimal" is the semantic premise NumKey (NumOK:
+   the matcher's reading and strconv.ParseInt agree on the indexed values of the key, heights
+   included); the lemma that every [dec z], 0 <= z <= MaxInt64, is NumOK is missing.
+   Premises: Distinct, TxDomain, wf_cond_r (range conditions: integer operand on a NumKey key
+   without '/', not tx.hash; other conditions: wf_cond of theorem 6), TxRangeShape. *)
+Theorem C19_tx_search_exact_ranges_partial : forall (h : list iop) (q : query),
+  Distinct (history_txs h) ->
+  (forall t, In t (history_txs h) -> TxDomain t) ->
+  q <> [] ->
+  (forall c, In c q -> wf_cond_r (history_txs h) c) ->
+  TxRangeShape (history_txs h) q ->
+  exists ids, search (run_history h) q = SOk ids /\
+    forall id, In id ids <->
+      exists t, In t (history_txs h) /\ t_hash t = id /\ matches q (tx_events t) = MTrue.
+Proof. exact SearchRangeProofs.C19_tx_search_exact_ranges_partial. Qed.
+Print Assumptions C19_tx_search_exact_ranges_partial.
+
+Example C19_tx_search_exact_ranges_nonvacuous :
+  Distinct (history_txs nv_hist) /\
+  (forall t, In t (history_txs nv_hist) -> TxDomain t) /\
+  nvr_q <> [] /\
+  (forall c, In c nvr_q -> wf_cond_r (history_txs nv_hist) c) /\
+  TxRangeShape (history_txs nv_hist) nvr_q /\
+  search (run_history nv_hist) nvr_q = SOk ["0"%string] /\
+  sat nvr_q nv_t0 = true /\ sat nvr_q nv_t1 = false.
+Proof. pose proof SearchRangeProofs.C19_tx_search_exact_ranges_nonvacuous as H. intuition. Qed.
 
 (* ------------------------------------------------------------------ block indexer half
    (state/indexer/block/kv; model in BlockModel.v: the store is the list of (key, height)
